@@ -3833,7 +3833,7 @@ class SFTPClientFile:
     async def close(self) -> None:
         """Close the remote file"""
 
-        if self._handle:
+        if self._handle is not None:
             await self._handler.close(self._handle)
             self._handle = None
 
